@@ -242,7 +242,8 @@ Proof.
   - reflexivity.
   - destruct (zmem _ _); [destruct (Nat.eqb _ _)|]; reflexivity.
   - destruct (zmem _ _); reflexivity.
-  - destruct (zmem _ _); [reflexivity|]. rewrite fresh_list_app. destruct (has_cell _ _ _); reflexivity.
+  - destruct (zmem _ _); [reflexivity|]. destruct (has_cell h r (V name)); [reflexivity|].
+    rewrite fresh_list_app. destruct (has_cell _ _ _); reflexivity.
   - destruct (zmem _ _); [reflexivity|]. destruct (zmem _ _); [reflexivity|]. destruct (_ =? _); reflexivity.
   - destruct (zmem _ _); [reflexivity|]. destruct (zmem _ _); [reflexivity|]. destruct (_ =? _); reflexivity.
   - destruct (zmem _ _); reflexivity.
@@ -253,7 +254,7 @@ Proof.
   - apply fresh_map. intros w. reflexivity.
   - reflexivity.
   - rewrite fresh_list_app. apply andb_true_iff. split; [|reflexivity].
-    destruct (is_empty_trace h r t || reset); reflexivity.
+    match goal with |- fresh_list (if ?b then _ else _) = true => destruct b; reflexivity end.
   - reflexivity.
   - reflexivity.
   - reflexivity.
